@@ -13,7 +13,7 @@
    witness) and is otherwise decided by the differential and statement runs of tools/props/C12.py. *)
 From Coq Require Import List ZArith NArith Bool String.
 Import ListNotations.
-From RQ Require Import Base Apply Parser Writer WriterProofs FilenameProofs HeaderProofs.
+From RQ Require Import Base Apply Parser Writer WriterProofs FilenameProofs HeaderProofs ParsedProofs.
 
 Theorem C12_hunk_roundtrip :
   forall input rest0 ph rest,
@@ -65,6 +65,24 @@ Theorem C12_file_patch_roundtrip :
     exists fp', parse_filepatch (out ++ rest) false = Ok (POk rest ([], fp')) /\ same_fp fp fp'.
 Proof. exact write_parse_filepatch. Qed.
 Print Assumptions C12_file_patch_roundtrip.
+
+(* closing the loop: every file patch with hunks that the parser returns for an input of bytes is written
+   without failure and read back as the same file patch *)
+Theorem C12_parsed_file_patch_roundtrip :
+  forall input wh rest0 h fp rest,
+    parse_filepatch input wh = Ok (POk rest0 (h, fp)) -> Forall is_byte input -> pf_hunks fp <> [] ->
+    rest_ok rest ->
+    exists out fp', write_filepatch fp = Ok out /\
+                    parse_filepatch (out ++ rest) false = Ok (POk rest ([], fp')) /\ same_fp fp fp'.
+Proof. exact parsed_filepatch_roundtrip. Qed.
+Print Assumptions C12_parsed_file_patch_roundtrip.
+
+(* ... and so is every file patch (with hunks) of a whole parsed patch, after stripping *)
+Theorem C12_parsed_patch_is_well_formed :
+  forall input strip wh p, parse_patch input strip wh = Ok (Parsed p) -> Forall is_byte input ->
+    Forall (fun fp => pf_hunks fp <> [] -> wf_fp fp) (pp_fps p).
+Proof. exact parse_patch_wf. Qed.
+Print Assumptions C12_parsed_patch_is_well_formed.
 
 (* a sequence of them: the written patch is read back (at strip level 0) as the same file patches *)
 Theorem C12_patch_roundtrip :
